@@ -132,6 +132,8 @@ inductive Ev where
   | cb (o : Obs)
   | conv (i : Option Nat)
   | ret (t : Nat) (b : Bool)
+  | callerCont           -- the code that called `callback_await` carries on (its full expression is over)
+  | deadArg              -- the awaited operation was constructed from an argument that no longer exists
   deriving DecidableEq, Repr, Inhabited
 
 structure Cfg where
@@ -145,6 +147,8 @@ structure Cfg where
   srcVoid : Bool := false          -- the source is a future<void>: the converter gets no argument
   convReads : Bool := true         -- the converter glue reads the source (`*_fut`); false = pinned void-source shapes
   cbThrows : Option Nat := none    -- contract violation: the user's callback throws this exception on its first invocation
+  inCoro : Bool := false           -- the registration is made from inside a running coroutine (active `coro_queue`)
+  argsByRef : Bool := false        -- NOT the code: `callback_await_coro` taking `Args && ...` (frame holds references)
 
 /-- the documented contract of the adapters: callbacks do not throw -/
 def Pre (c : Cfg) : Prop := c.cbThrows = none
@@ -157,6 +161,10 @@ structure State where
   pc : Nat → Pc
   outer : Option OuterRes := none
   nxt : Slot := Slot.null        -- `_next` of the adapter's awaiter node = expected value of its next subscribing CAS
+  -- ghost: construction of the awaited operation (`Awt awt(args...)` in the helper's body / `_fut << fn`)
+  tmpLive : Bool := true         -- the caller's full expression (and its temporary arguments) is still alive
+  built : Bool := false          -- the awaited operation has been constructed
+  builtLive : Bool := true       -- ... from argument storage that was alive at that moment
   -- ghost
   tok : Tok
   calls : Nat := 0
@@ -343,17 +351,37 @@ def casStep (c : Cfg) (s : State) : State × List Ev :=
     ({ setPc s 0 (Pc.comp (nloads c s.payload) Who.reg) with nxt := Slot.null }, [Ev.opCas 0 false Slot.ready])
   else ({ setPc s 0 Pc.gCas with nxt := s.slot }, [Ev.opCas 0 false s.slot])
 
-/-- the plain prefix of the registration: helper allocation, factory call (the promise becomes available) -/
+/-- the helper coroutine of `callback_await` does not start inside the call when the calling thread has an active
+coroutine queue: `detach()`'s suspend point only queues it, it starts once the caller suspended / finished -/
+def deferred (c : Cfg) : Bool := c.inCoro && decide (c.adapter = Adapter.cbAwait)
+
+/-- is the storage the awaited operation is constructed from alive at that moment?  `callback_await_coro` takes its
+arguments by value: the coroutine frame (allocated in this very segment, released only after the completion) owns copies.
+With references in the frame (`argsByRef`, not the code) it would be the caller's temporaries, which are gone when the
+start was deferred.  The other adapters construct the operation inside the caller's full expression. -/
+def argStorageLive (c : Cfg) (s : State) : Bool :=
+  if c.adapter = Adapter.cbAwait then
+    (if c.argsByRef then !deferred c else decide (s.frees < s.allocs + 1))
+  else true
+
+/-- the plain prefix of the registration: helper allocation, (deferred start: the caller carries on first,) construction
+of the awaited operation = factory call (the promise becomes available) -/
 def prep (c : Cfg) (s : State) : State :=
   { s with published := true, allocs := s.allocs + (if c.adapter.allocates then 1 else 0),
            -- a freshly allocated helper has a fresh awaiter node; the member-object adapters re-use theirs
-           nxt := if c.adapter.allocates then Slot.null else s.nxt }
+           nxt := if c.adapter.allocates then Slot.null else s.nxt,
+           tmpLive := !deferred c, built := true, builtLive := argStorageLive c s }
+
+/-- plain events of the registrar's first segment, in program order -/
+def prepEvs (c : Cfg) (s : State) : List Ev :=
+  (if c.adapter.allocates then [Ev.alloc] else []) ++ (if deferred c then [Ev.callerCont] else [])
+    ++ (if argStorageLive c s then [] else [Ev.deadArg])
 
 /-- first step of the registrar: `prep`, then the first operation on a shared atomic.  `callback_await` asks `ready()`
 first, and so does the hand-driven `call_fn_awaiter`; `make_promise` pre-loads the slot with its own node and touches
 nothing shared; the others subscribe at once -/
 def startStep (c : Cfg) (s : State) : State × List Ev :=
-  let evs := if c.adapter.allocates then [Ev.alloc] else []
+  let evs := prepEvs c s
   match c.adapter with
   | Adapter.cbAwait =>
       (match s.slot with
